@@ -166,7 +166,36 @@ pub fn case_candidates(case: &Case) -> Vec<Case> {
         if sub.is_null() {
             continue;
         }
-        for cand in subtree_candidates(&sub) {
+        let cands = if field == "cfg" {
+            // only the perturbation knobs shrink; budgets stay, or a repaired tree could not
+            // finish the replay
+            let mut v = vec![];
+            for (key, simple) in [
+                ("policy", json!("Identity")),
+                ("site_ratio", json!(0)),
+                ("yield_rate", json!(0)),
+                ("yield_sites", json!(0)),
+            ] {
+                if sub[key] != simple {
+                    let mut c = sub.clone();
+                    c[key] = simple;
+                    v.push(c);
+                }
+            }
+            if let Some(bits) = sub["yield_sites"].as_u64() {
+                for b in 0..4 {
+                    if bits & (1 << b) != 0 && bits != (1 << b) {
+                        let mut c = sub.clone();
+                        c["yield_sites"] = json!(bits & !(1 << b));
+                        v.push(c);
+                    }
+                }
+            }
+            v
+        } else {
+            subtree_candidates(&sub)
+        };
+        for cand in cands {
             let mut full = base.clone();
             full[field] = cand;
             if let Ok(c) = serde_json::from_value::<Case>(full) {
